@@ -175,7 +175,21 @@ class G:
       a = a * 1e-3                     # tiny
     elif kind < 0.16:
       a = a * 30.0                     # large
-    return a.astype(np.float32)
+    elif kind < 0.20:
+      a = np.where(r.random(np.shape(a)) < 0.35, 0.0, a)          # sparse: exact zeros
+    elif kind < 0.23 and np.ndim(a) >= 2:
+      a = np.array(a)
+      ax = int(r.integers(np.ndim(a)))                           # one whole slice exactly zero (a dead channel on some axis)
+      idx = [slice(None)] * np.ndim(a)
+      idx[ax] = int(r.integers(a.shape[ax]))
+      a[tuple(idx)] = 0.0
+    elif kind < 0.25:
+      a = np.full(np.shape(a), float(r.choice([-1.5, 0.25, 3.0])))   # min == max
+    elif kind < 0.28:
+      a = (np.round(a * 4.0) + 0.5) * 0.125                      # values on a dyadic grid: rounding ties when the scale is dyadic too
+    elif kind < 0.30:
+      a = np.where(r.random(np.shape(a)) < 0.2, -0.0, a)          # negative zeros
+    return np.asarray(a).astype(np.float32)
 
   def op(self, code, ins, outs, opts=None, ot=0):
     return self.b.op(self.sg, code, ins, outs, opts, ot)
